@@ -22,6 +22,9 @@ const (
 	RelNew      = "new"      // outFile does not exist
 	RelExisting = "existing" // outFile exists (old content, non-default mode)
 	RelExisting0 = "existing0" // outFile exists and is empty (the mktemp/touch pattern)
+	// RelExistingLink: outFile is a symbolic link to an existing regular file elsewhere (out/store/current.pdf,
+	// old content): whichever of the two the operation replaces, neither may ever hold a torn state
+	RelExistingLink = "existing-link"
 	// C03 only: aliases of the input
 	RelDotSlash = "dotslash" // out = dir/./in.pdf
 	RelRelAbs   = "relabs"   // in absolute, out relative to cwd (cwd = in dir)
@@ -222,6 +225,22 @@ func Setup(o *Op, rel string, root string, outMode os.FileMode) (*Env, error) {
 			return nil, err
 		}
 		os.Chmod(e.Out, outMode)
+	case RelExistingLink:
+		store := filepath.Join(e.OutDir, "store")
+		if err := os.Mkdir(store, 0755); err != nil {
+			return nil, err
+		}
+		target := filepath.Join(store, "current"+ext)
+		e.OldOut = OldOutputContent
+		if err := os.WriteFile(target, e.OldOut, outMode); err != nil {
+			return nil, err
+		}
+		os.Chmod(target, outMode)
+		e.Out = filepath.Join(e.OutDir, "out"+ext)
+		if err := os.Symlink(target, e.Out); err != nil {
+			return nil, err
+		}
+		e.Dest = e.Out
 	case "append":
 		// destination is an existing valid PDF that the op extends
 		e.Out = filepath.Join(e.OutDir, "out"+ext)
